@@ -21,7 +21,7 @@ From Coq Require Import List Bool NArith ZArith Arith Lia ZifyBool ZifyNat ZifyN
 From Goit Require Import Bytes Sha1 Obj Tree Index Regex GoRegex Commit Reflog Config Ignore World Repo.
 From Goit Require Import BytesFacts ObjFacts MonadFacts BranchFacts Inv.
 From Goit Require ChainFacts ConnectedFacts SnapshotFacts TreeUniqueFacts HeadFacts ConfigCmdFacts
-                  JournalFacts ResetFacts.
+                  JournalFacts ResetFacts CtxFacts.
 Import ListNotations.
 
 Arguments sha1 : simpl never.
@@ -267,6 +267,7 @@ Definition FInv (w : world) : Prop :=
   TreeUniqueFacts.UInv w /\
   HeadFacts.NamesValid w /\
   ConfigCmdFacts.WfCfg w /\
+  ConfigCmdFacts.CfgGood w /\       (* both configuration files load (CtxFacts) *)
   refs_sorted w.
 
 Lemma FInv_empty : FInv w_empty.
@@ -277,31 +278,34 @@ Proof.
   split; [intros _; exact TreeUniqueFacts.TreesUnique_empty|].
   split; [exact HeadFacts.NamesValid_empty|].
   split; [exact ConfigCmdFacts.WfCfg_empty|].
+  split; [exact ConfigCmdFacts.CfgGood_empty|].
   apply am_sorted_nil.
 Qed.
 
 Lemma FInv_step : forall a w, action_ok a -> FInv w -> FInv (step_w a w).
 Proof.
-  intros a w Hok (Hk & Hch & Hs & Hu & Hn & Hc & Hr).
+  intros a w Hok (Hk & Hch & Hs & Hu & Hn & Hc & Hcg & Hr).
   split; [exact (ResetFacts.KI_step a w Hok Hk)|].
   split; [exact (ChInv_step a w Hch)|].
   split; [exact (SnapshotFacts.step_Inv a w Hok Hs)|].
   split; [exact (TreeUniqueFacts.step_unique a w Hok Hs Hu)|].
   split; [exact (HeadFacts.names_valid_step a w Hn)|].
   split; [exact (ConfigCmdFacts.WfCfg_step a w Hc)|].
+  split; [exact (CtxFacts.cfgs_load_step a w Hcg)|].
   exact (refs_sorted_step a w Hr).
 Qed.
 
 Lemma FInv_fault : forall e c w k r s',
   FInv w -> run_cmd e c (mkMS w [] (Some k)) = (r, s') -> FInv (ms_w s').
 Proof.
-  intros e c w k r s' (Hk & Hch & Hs & Hu & Hn & Hc & Hr) Hrun.
+  intros e c w k r s' (Hk & Hch & Hs & Hu & Hn & Hc & Hcg & Hr) Hrun.
   split; [exact (KI_fault e c w k r s' Hk Hrun)|].
   split; [exact (ChInv_fault e c w k r s' Hch Hrun)|].
   split; [exact (SInv_fault e c w k r s' Hs Hrun)|].
   split; [exact (UInv_fault e c w k r s' Hs Hu Hrun)|].
   split; [exact (HeadFacts.names_valid_fault e c w k r s' Hn Hrun)|].
   split; [exact (ConfigCmdFacts.WfCfg_fault e c w k r s' Hc Hrun)|].
+  split; [exact (CtxFacts.cfgs_load_fault e c w k r s' Hcg Hrun)|].
   exact (refs_sorted_fault e c w k r s' Hr Hrun).
 Qed.
 
@@ -321,6 +325,7 @@ Theorem freachable_invariants : forall w, FReachable w ->
   (* unconditional *)
   HeadFacts.NamesValid w /\
   ConfigCmdFacts.WfCfg w /\
+  ConfigCmdFacts.CfgGood w /\
   refs_sorted w /\
   JournalFacts.JInv w /\
   (* in guarded form *)
@@ -332,8 +337,8 @@ Theorem freachable_invariants : forall w, FReachable w ->
      TreeUniqueFacts.SnapshotsUnique (w_objs w) /\ HlogGood w).
 Proof.
   intros w Hw.
-  destruct (freachable_FInv w Hw) as ((Hj & Hc & Hids) & Hch & Hs & Hu & Hn & Hcfg & Hr).
-  split; [exact Hn|]. split; [exact Hcfg|]. split; [exact Hr|]. split; [exact Hj|].
+  destruct (freachable_FInv w Hw) as ((Hj & Hc & Hids) & Hch & Hs & Hu & Hn & Hcfg & Hcg & Hr).
+  split; [exact Hn|]. split; [exact Hcfg|]. split; [exact Hcg|]. split; [exact Hr|]. split; [exact Hj|].
   split; [exact Hc|]. split; [exact Hs|]. split; [exact Hu|]. split; [exact Hch|].
   split.
   - intro Hcoll. destruct Hch as [Hb|Hg]; [rewrite Hb in Hcoll; discriminate Hcoll | exact Hg].
@@ -686,7 +691,7 @@ Section Example.
     HeadFacts.NamesValid fx_w /\ ConfigCmdFacts.WfCfg fx_w /\ refs_sorted fx_w /\ JournalFacts.JInv fx_w.
   Proof.
     destruct (freachable_invariants fx_w fx_freachable)
-      as (Hn & Hcfg & Hr & Hj & _ & _ & _ & _ & Hch & Hst).
+      as (Hn & Hcfg & _ & Hr & Hj & _ & _ & _ & _ & Hch & Hst).
     destruct fx_live as [Hc Hs].
     destruct (Hst Hc Hs) as (H1 & H2 & H3 & H4 & H5 & H6).
     auto 12 using (Hch Hc).
